@@ -93,6 +93,13 @@ form('nest-cond-in-tpl', { ops: ['tpl', '+'] }, F => `\`\${${F.f()}}\${w.b${F.id
 form('nest-destructure-default-in-plus', { ops: ['+'] }, F => `${F.f()} + (({ k = ${F.s()} + ${F.f()} }) => k)({}) + ${F.f()}`)
 form('nest-for-head-iife-in-plus', { ops: ['+'] }, F => `${F.f()} + (() => { let r = ''; for (let i = ${F.s()} + ${F.f()}; r.length < 1; r += ${F.s()} + ${F.f()}) { r += i } return r })()`)
 form('nest-accessor-target', { ops: ['+='] }, F => `({ get p() { return ${F.s()} }, set p(v) { w.out(v) } }).p += ${F.f()}`)
+// delete operands are a documented exclusion: nothing inside is instrumented, whatever the operand looks like
+form('delete-optchain-method', { ops: ['substring'], instr: false }, F => `delete w.o${F.id()}?.s1.substring(1).c`)
+form('delete-optchain-method-plus-arg', { ops: ['substring', '+'], instr: false }, F => `delete w.o${F.id()}?.s1.substring(w.i${F.id()} + 1).c`)
+form('delete-optcall-method', { ops: ['trim'], instr: false }, F => `delete w.o${F.id()}.s1?.trim().x`)
+form('delete-member-of-method-call', { ops: ['substring'], instr: false }, F => `delete ${F.loc()}.substring(1).c`)
+form('delete-computed-tpl-key', { ops: ['tpl'], instr: false }, F => `delete w.o${F.id()}[\`k\${${F.loc()}}\`]`)
+form('delete-then-plus', { ops: ['+'] }, F => `(delete w.o${F.id()}?.s1.substring(1).c) + ${F.loc()} + ${F.f()}`)
 form('minus-only', { ops: [], instr: false }, F => `w.i${F.id()} - w.i${F.id()}`)
 // +=
 form('addassign-ident-lit', { ops: ['+='] }, F => `${F.loc()} += ${F.lit()}`)
